@@ -285,6 +285,17 @@ def r4_rewrite_impls(ctx, F):
                 return None
             if v.kind == 'call':
                 c_ = x.call_at(v.key)
+                # views of the crate's own types count only when they enumerate everything
+                # (Network::iter_deliverable shows the head of each ordered flow only)
+                if c_ is not None and c_.local and not c_.decl.startswith(('std::', 'core::', 'alloc::')) and \
+                        not c_.is_('Network::iter_all', 'DenseNatMap::iter',
+                                                               'DenseNatMap::values', 'Timers::iter') and \
+                        c_.decl != 'checker::rewrite::Rewrite::rewrite' and not c_.is_('RewritePlan::rewrite',
+                                                                                       'RewritePlan::reindex'):
+                    return None
+                if c_ is not None and c_.is_('Iterator::take', 'Iterator::skip', 'Iterator::filter', 'Iterator::step_by',
+                                              'Iterator::take_while', 'Iterator::skip_while', 'Iterator::nth'):
+                    return None
                 if c_ is not None and c_.args and c_.args[0].get('k') in ('copy', 'move'):
                     for v2 in origin_vals(x, c_.args[0]):
                         r_ = root_field(x, v2, depth + 1)
